@@ -1,0 +1,15 @@
+//go:build verif
+
+package utils
+
+// Contracts for utils.go, read by the rcvc verifier in /verif (comment-only; adds no code).
+
+//@ func FormatRedisRESPMessages
+//@   props C12
+//@   modifies nothing
+//@   loop 0
+//@     invariant 0 <= rangeindex + 1 && rangeindex + 1 <= len(resp) && len(bs) == len(resp) && fresh(bs)
+//@     invariant forall r Ref, j int :: wasalloc(r) ==> rawbyte(r, j) == old(rawbyte(r, j))
+
+//@ func FormatRedisIovRESPMessages
+//@   flags trusted pure
